@@ -8,6 +8,9 @@ CONSTANTS
   Alphabet <- NoOps
   PreOps <- PreNone
   SibFields <- NoFields
+  SidPairs <- NoSid
   TamperMax = 11
-INVARIANTS TypeOK PRedactedIffMismatch PRedactedNoop PRedactedForm PIntact PIdSigIff PSigsTogether Emit
+  WireVersions <- NoVersions
+INVARIANTS TypeOK PRedactedIffMismatch PRedactedNoop PRedactedForm PIntact PIdSigIff PSigsTogether
+  PSpellingNeutral PCaseIsAnotherKey PDupOneReading PDupGenuineOnly PDupNoReadingHash PDupForgerOnly PDupSummaries Emit
 CHECK_DEADLOCK FALSE
